@@ -38,6 +38,13 @@ class Hook:
 class C20System(BuilderSystem):
     cfg = {"decimal_places": 5}
 
+    def fresh(self):
+        st = super().fresh()
+        # hooks are arbitrary callables (closures): a deep copy would share whatever they keep to themselves, so every
+        # state of this search is rebuilt by replaying its history on fresh objects
+        st.__class__ = type("ReplayOnlySut", (st.__class__,), {"copyable": property(lambda self: False)})
+        return st
+
     def setup(self, st):
         g = st.g
         g.set_resolution(1.0)
@@ -230,7 +237,7 @@ def systems(tier):
 
 
 def run(tier, seed):
-    return run_configs("model_checking", systems(tier), tier, seed, RULE, ASSUMPTIONS, snapshot_check=True)
+    return run_configs("model_checking", systems(tier), tier, seed, RULE, ASSUMPTIONS, snapshot_check=False)
 
 
 def replay(body):
